@@ -225,6 +225,49 @@ def run(tier: str, seed: int) -> int:
                                  "measured": {"mean": m, "std": float(np.std(u)), "min": float(np.min(u)), "max": float(np.max(u))}})
                     nsamp += 1
     run_.traces = ncase
+    # ---- the cutoff parameter of the truncated series (fixed at 2 above): 0 (constant field), 1, 3 and beyond the grid's Nyquist wavenumber
+    for D in (1, 2, 3):
+        for N in ((8, 9, 13) if D < 3 else (6, 7)):
+            for cutoff in (0, 1, 3, N // 2, N // 2 + 2):
+                for off in ("const", "range"):
+                    key = jax.random.PRNGKey(int(rng.integers(0, 2 ** 31)))
+                    u = np.asarray(ex.ic.RandomTruncatedFourierSeries(D, cutoff=cutoff, offset_range=OFF[off])(N, key=key))
+                    run_.evaluations += 1
+                    run_.case(("cutoff", D, N, cutoff, off))
+                    kk_ = np.asarray(ex.spectral.build_wavenumbers(D, N))
+                    uh = np.asarray(ex.fft(jnp.asarray(u)))
+                    outside = np.max(np.abs(kk_), axis=0, keepdims=True) > cutoff
+                    keyv = {"kind": "cutoff", "gen": "RandomTruncatedFourierSeries", "D": D, "cutoff_is_zero": cutoff == 0, "offset": off}
+                    if u.shape != (1,) + (N,) * D:
+                        run_.violation(dict(keyv, mode="shape"), {"shape": list(u.shape)})
+                        continue
+                    leak = float(np.max(np.abs(uh) * outside)) if outside.any() else 0.0
+                    if leak > 1e-9 * (1 + float(np.max(np.abs(uh)))):
+                        run_.violation(dict(keyv, mode="band"), {"N": N, "cutoff": cutoff, "leak": leak})
+                    m = float(np.mean(u))
+                    lo, hi = OFF[off]
+                    if not (lo - 1e-9 <= m <= hi + 1e-9):
+                        run_.violation(dict(keyv, mode="mean-range"), {"N": N, "cutoff": cutoff, "mean": m})
+                    if cutoff == 0 and float(np.max(np.abs(u - m))) > 1e-9:
+                        run_.violation(dict(keyv, mode="cutoff 0 is not a constant field"), {"N": N, "dev": float(np.max(np.abs(u - m)))})
+                    if cutoff >= 1:
+                        # every retained wavenumber shell carries something (a uniform draw is never exactly 0)
+                        inside = (~outside) & (np.sum(kk_ ** 2, axis=0, keepdims=True) > 0)
+                        nyq = np.max(np.abs(kk_), axis=0, keepdims=True) * 2 >= N
+                        sel = inside & ~nyq
+                        if sel.any() and not float(np.min(np.abs(uh)[sel])) > 0:
+                            run_.violation(dict(keyv, mode="retained mode empty"), {"N": N, "cutoff": cutoff})
+    for N in (8, 9, 16):
+        for cutoff in (1, 3, 5):
+            g = ex.ic.RandomSineWaves1d(1, domain_extent=3.0, cutoff=cutoff, offset_range=OFF["const"])
+            key = jax.random.PRNGKey(int(rng.integers(0, 2 ** 31)))
+            u = np.asarray(g(N, key=key))
+            run_.evaluations += 1
+            run_.case(("cutoff-sine", N, cutoff))
+            if 2 * cutoff < N:
+                uh = np.abs(np.asarray(ex.fft(jnp.asarray(u))))[0]
+                if float(np.max(uh[cutoff + 1:], initial=0.0)) > 1e-9 * (1 + float(np.max(uh))) or abs(float(np.mean(u)) - 1.5) > 1e-9:
+                    run_.violation({"kind": "cutoff", "gen": "RandomSineWaves1d", "D": 1, "mode": "band/mean"}, {"N": N, "cutoff": cutoff})
     # ---- the deterministic building blocks behind the random generators (function forms with known closed forms)
     for D in (1, 2, 3):
         N, L = 12, 2.0
